@@ -21,7 +21,8 @@ func init() {
 			"R5 elision pairing depends on positions only through their order — in connectDots line and column numbers are used exclusively as operands of order/equality comparisons with other line/column numbers (never in arithmetic, never against constants), so inserting comment or blank lines or re-wrapping both sides identically cannot change the association. " +
 			"R6 the name of a change does not steer positions — the token.File that receives a section's line table is the object created for that section (FileSet.AddFile result / FileSet.File at a position of that side's parse result), never looked up by a name two changes may share. " +
 			"NOT decided (runtime relation over positions): consistent renaming beyond R4, declaration regrouping, re-wrapping / re-spacing of the Go code, blank lines inside patterns, context line versus '-'/'+' pair." +
-			" R9 each change is parsed and compiled on its own (no parse cache, no parser state, fresh compilers, no x.f = x.f[:0]).",
+			" R9 each change is parsed and compiled on its own (no parse cache, no parser state, fresh compilers, no x.f = x.f[:0])." +
+			" R10 kept patch text is not a window into a reader's buffer (C03-R12).",
 		Trusted:     commonTrusted,
 		Assumptions: commonAssumptions,
 	})
@@ -41,7 +42,8 @@ func runC13(r *an.Run) {
 	c01SplitPatch(r)
 	relabel(r, "R9-minus-plus-split", "R7-a-space-prefixed-line-is-context")
 	positionsReadBeforeStrip(r, "R8-marker-or-context-first-line-same-start")
-	eachChangeOnItsOwn(r, "R9-each-change-is-parsed-and-compiled-on-its-own")
+	eachChangeOnItsOwn(r, "R9-each-change-is-parsed-and-compiled-on-its-own", false)
+	noTransientBufferRetained(r, "R10-kept-text-is-not-a-window-into-a-read-buffer")
 }
 
 func c13CommentsSkipped(r *an.Run) {
